@@ -243,6 +243,21 @@ fail:
     return true;
 }
 
+bool sim_alloc_fault_point(const char *what)
+{
+    if (countdown <= 0 && !sticky)
+        return false;
+    eligible_seen++;
+    if (!(sticky && countdown <= 0) && --countdown > 0)
+        return false;
+    failed_count++;
+    SIM_PROBE("fault_umem_failed");
+    if (sim_verbose)
+        printf("      * allocation failure injected in %s\n", what);
+    sim_ev("umem_fail", eligible_seen, 0);
+    return true;
+}
+
 void *sim_repo_malloc(size_t size)
 {
     if (should_fail(__builtin_return_address(0)))
